@@ -275,6 +275,9 @@ func (c *Check) Finish() int {
 	for r, n := range c.ruleCount {
 		perRule[r] = n
 	}
+	if c.Trusted == nil {
+		c.Trusted = []string{"go/types"}
+	}
 	cov := map[string]any{
 		"explanation":         c.Explanation,
 		"not_covered":         c.NotCovered,
@@ -302,9 +305,6 @@ func (c *Check) Finish() int {
 	}
 	if c.Assumptions == nil {
 		c.Assumptions = []string{"go/types and x/tools v0.29.0 are sound; the corpus bounds the schema quantifier where generated code is analysed"}
-	}
-	if c.Trusted == nil {
-		c.Trusted = []string{"go/types"}
 	}
 	ev := map[string]any{
 		"property_id": c.ID,
